@@ -1296,7 +1296,17 @@ class Interp:
                     b = args[1].get_folded_value().value
                     seq = [(st, [BV(i % 2**256) for i in range(a, b)], None)]
                 else:
-                    raise Unsupported("range(a, b, bound=)")
+                    # range(start, end, bound=N): start and end are evaluated once; start <= end (in the counter's type) and
+                    # end - start <= N are required; the counter takes start, start+1, ..., end-1
+                    ct = V.T(tname(self.typ(s.target.target)))
+                    seq = []
+                    for s1, a in self.eval(st, args[0]):
+                        for s2, b in self.eval(s1, args[1]):
+                            le = (a <= b) if ct.signed else z3.ULE(a, b)
+                            s3 = self.require(s2, le)
+                            rounds = b - a  # exact: start <= end
+                            s3 = self.require(s3, z3.ULE(rounds, BV(bound)))
+                            seq.append((s3, [a + BV(k) for k in range(bound)], rounds))
             for s0, items, cnt in seq:
                 out += self.loop(s0, var, items, s.body, (lambda k, cnt=cnt: z3.ULT(BV(k), cnt)) if cnt is not None else None)
             return out
